@@ -25,6 +25,15 @@ Proof.
   generalize (seq 0 (S att)). induction l0 as [|i l0 IH]; simpl; auto.
 Qed.
 
+Lemma efr_noacks : forall l, efr (noacks l) = efr l.
+Proof. induction l as [|o l IH]; simpl; [reflexivity|]. destruct o; simpl; now rewrite ?IH. Qed.
+Lemma efr_acks_of : forall l, efr (acks_of l) = [].
+Proof. induction l as [|o l IH]; simpl; [reflexivity|]. destruct o; simpl; now rewrite ?IH. Qed.
+Lemma calls_noacks : forall l, calls (noacks l) = calls l.
+Proof. induction l as [|o l IH]; simpl; [reflexivity|]. destruct o; simpl; now rewrite ?IH. Qed.
+Lemma calls_acks_of : forall l, calls (acks_of l) = [].
+Proof. induction l as [|o l IH]; simpl; [reflexivity|]. destruct o; simpl; now rewrite ?IH. Qed.
+
 Lemma efr_replay : forall rb sent, efr (replay rb sent) = [].
 Proof.
   induction rb as [|[[[l id] h] i] rb IH]; intros sent; simpl; [reflexivity|].
@@ -57,7 +66,7 @@ Qed.
 Lemma step_only_frames : forall s o, only_frames (sendBuf s) -> only_frames (sendBuf (snd (step s o))).
 Proof.
   intros s o H. destruct o; simpl.
-  - destruct (is_conn (cs s)); simpl; [assumption|].
+  - destruct (is_conn (cs s) && nilb (sendBuf s)); simpl; [assumption|].
     destruct (negb volatile); simpl; [|assumption].
     apply Forall_app; split; [assumption|apply only_frames_frames].
   - destruct (is_pending (cs s)); simpl; assumption.
@@ -70,7 +79,7 @@ Qed.
 Lemma step_cs : forall s o, cs (snd (step s o)) = lifecycle (cs s) o.
 Proof.
   intros s o. destruct o; simpl.
-  - destruct (is_conn (cs s)); simpl; [reflexivity|]. destruct (negb volatile); reflexivity.
+  - destruct (is_conn (cs s) && nilb (sendBuf s)); simpl; [reflexivity|]. destruct (negb volatile); reflexivity.
   - destruct (cs s) eqn:E; simpl; rewrite ?E; reflexivity.
   - reflexivity.
   - reflexivity.
@@ -86,12 +95,21 @@ Definition wf (s : st) : Prop := is_conn (cs s) = true -> sendBuf s = [] /\ recv
 Lemma step_wf : forall s o, wf s -> wf (snd (step s o)).
 Proof.
   intros s o H. unfold wf in *. destruct o; simpl.
-  - destruct (is_conn (cs s)) eqn:C; simpl; [rewrite C; auto|].
-    destruct (negb volatile); simpl; rewrite C; discriminate.
+  - destruct (is_conn (cs s)) eqn:C; simpl.
+    + destruct (H eq_refl) as [E1 E2]. rewrite E1. simpl. rewrite C. auto.
+    + destruct (negb volatile); simpl; rewrite C; discriminate.
   - destruct (is_pending (cs s)); simpl; [assumption|discriminate].
   - auto.
   - discriminate.
   - destruct (is_conn (cs s)) eqn:C; simpl; rewrite ?C; auto; discriminate.
+Qed.
+
+(** The CONNECT reply hands over exactly the parked frames, in order (acks around them). *)
+Lemma efr_reply_out : forall s, efr (fst (step s ConnectReply)) = efr (sendBuf s).
+Proof.
+  intros s. simpl. destruct (sendBuf s); simpl nilb; cbv iota.
+  - now rewrite efr_replay.
+  - now rewrite !efr_app, efr_noacks, efr_acks_of, efr_replay, app_nil_r.
 Qed.
 
 (** Main invariant, send side: what has been handed to the manager so far, followed by what is
@@ -107,12 +125,16 @@ Proof.
     destruct (run s1 h) as [o2 s2]. simpl in *.
     rewrite efr_app, <- app_assoc, IH, Hcs. rewrite !app_assoc. f_equal.
     destruct o; simpl in Es.
-    + destruct (is_conn (cs s)) eqn:C; simpl.
-      * inversion Es; subst; simpl. rewrite (proj1 (Hwf C)). simpl. now rewrite efr_frames, app_nil_r.
+    + destruct (is_conn (cs s)) eqn:C; simpl in Es |- *.
+      * rewrite (proj1 (Hwf C)) in Es |- *. simpl in Es.
+        inversion Es; subst; simpl. now rewrite efr_frames, app_nil_r.
       * destruct (negb volatile); inversion Es; subst; simpl;
           rewrite ?efr_app, ?efr_frames, ?app_nil_r; reflexivity.
     + destruct (is_pending (cs s)); inversion Es; subst; simpl; now rewrite app_nil_r.
-    + inversion Es; subst; simpl. now rewrite efr_app, efr_replay, !app_nil_r.
+    + inversion Es; subst; simpl. rewrite app_nil_r.
+      destruct (sendBuf s); simpl nilb; cbv iota.
+      * now rewrite efr_replay.
+      * now rewrite !efr_app, efr_noacks, efr_acks_of, efr_replay, app_nil_r.
     + inversion Es; subst; simpl. now rewrite app_nil_r.
     + destruct (is_conn (cs s)); inversion Es; subst; simpl;
         rewrite ?efr_call_now, ?app_nil_r; reflexivity.
@@ -131,20 +153,21 @@ Qed.
 (** While the socket is not connected an emit hands nothing to the manager. *)
 Lemma offline_emit_silent : forall s l vol ack att,
   is_conn (cs s) = false -> efr (fst (step s (Emit l vol ack att))) = [].
-Proof. intros s l vol ack att H. simpl. rewrite H. destruct (negb vol); reflexivity. Qed.
+Proof. intros s l vol ack att H. simpl. rewrite H. simpl. destruct (negb vol); reflexivity. Qed.
 
 (** The parked frames are exactly the non-volatile emits made since the last CONNECT reply while
     not connected; the reply hands them over in that order. *)
-Lemma run_pending : forall h s,
+Lemma run_pending : forall h s, wf s ->
   efr (sendBuf (snd (run s h))) = offline_pending (cs s) (efr (sendBuf s)) h.
 Proof.
-  induction h as [|o h IH]; intros s; simpl; [reflexivity|].
-  pose proof (step_cs s o) as Hcs. specialize (IH (snd (step s o))).
+  induction h as [|o h IH]; intros s Hwf; simpl; [reflexivity|].
+  pose proof (step_cs s o) as Hcs. specialize (IH (snd (step s o)) (step_wf s o Hwf)).
   destruct (step s o) as [o1 s1] eqn:Es. simpl in *.
   destruct (run s1 h) as [o2 s2]. simpl in *. rewrite IH, Hcs. f_equal.
   destruct o; simpl in Es.
-  - destruct (is_conn (cs s)); simpl.
-    + inversion Es; reflexivity.
+  - destruct (is_conn (cs s)) eqn:C; simpl in Es |- *.
+    + rewrite (proj1 (Hwf C)) in Es. simpl in Es. inversion Es; subst. simpl.
+      now rewrite (proj1 (Hwf C)).
     + destruct (negb volatile); inversion Es; subst; simpl; rewrite ?efr_app, ?efr_frames; reflexivity.
   - destruct (is_pending (cs s)); inversion Es; reflexivity.
   - inversion Es; reflexivity.
@@ -155,7 +178,8 @@ Qed.
 Lemma reply_hands_over_pending : forall h,
   efr (fst (step (snd (run init h)) ConnectReply)) = offline_pending Disconnected [] h.
 Proof.
-  intros h. simpl. rewrite efr_app, efr_replay. simpl. exact (run_pending h init).
+  intros h. rewrite efr_reply_out.
+  apply (run_pending h init). unfold wf, init; simpl; discriminate.
 Qed.
 
 (** Receive side: handler invocations so far, followed by the parked ones, are the entitled ones. *)
@@ -198,12 +222,15 @@ Proof.
     destruct (run s1 h) as [o2 s2]. simpl in *.
     rewrite calls_app, <- app_assoc, IH. rewrite !app_assoc.
     destruct o; simpl in Es.
-    + destruct (is_conn (cs s)).
+    + destruct (is_conn (cs s) && nilb (sendBuf s)).
       * inversion Es; subst; simpl. now rewrite calls_frames.
       * destruct (negb volatile); inversion Es; subst; reflexivity.
     + destruct (is_pending (cs s)); inversion Es; subst; reflexivity.
-    + inversion Es; subst; simpl.
-      rewrite calls_app, calls_replay, (calls_only_frames _ Hof), !app_nil_r. reflexivity.
+    + inversion Es; subst; simpl. rewrite app_nil_r.
+      destruct (sendBuf s) eqn:SB; simpl nilb; cbv iota.
+      * now rewrite calls_replay.
+      * rewrite !calls_app, calls_noacks, calls_acks_of, calls_replay,
+          (calls_only_frames _ Hof), !app_nil_r. reflexivity.
     + inversion Es; subst; reflexivity.
     + destruct (is_conn (cs s)) eqn:C; inversion Es; subst; simpl.
       * rewrite calls_call_now. rewrite (proj2 (Hwf C)). simpl. now rewrite app_nil_r.
